@@ -140,6 +140,8 @@ pub struct ExecCtx {
     pub next_msg: AtomicU64,
     pub next_sid: AtomicU64,
     pub next_tok: AtomicU64,
+    /// Remaining model-side scheduling requests (bounds self-scheduling cascades).
+    pub sched_budget: std::sync::atomic::AtomicI64,
     pub toks: Mutex<TokState>,
     pub busy: Vec<AtomicBool>,
     pub wakers: Mutex<Vec<Waker>>,
@@ -158,6 +160,7 @@ impl ExecCtx {
             next_msg: AtomicU64::new(1),
             next_sid: AtomicU64::new(1),
             next_tok: AtomicU64::new(1),
+            sched_budget: std::sync::atomic::AtomicI64::new(40),
             toks: Mutex::new(TokState::default()),
             busy: (0..nodes).map(|_| AtomicBool::new(false)).collect(),
             wakers: Mutex::new(Vec::new()),
